@@ -43,7 +43,7 @@ CLAIMED = {
         "DESIGN.md §4 C07",
     ),
     "C08": (
-        "Model-based stateful property testing of the real whale_lair wired to the real fee distributor and collector (so its claim-first / epoch-is-current preconditions are the real ones): generated histories of bond (with exact, mismatching, wrong-denom, extra and missing funds; whitelisted, non-whitelisted and cw20 assets), unbond, two unbonds in one block, withdraw, time advances on and around the unbonding period (0, 1 ns, period-1, period, period+1, ...), epoch creation and claims by four users; reference model = bonded[user][denom] + multiset of unbonding records. After every step the contract balance per denom equals bonded + pending, TotalBonded equals the sum of users, Bonded/Unbonding/Withdrawable queries equal the model, a withdrawal pays exactly the matured records to the caller only, invalid bonds are rejected, rejected steps leave the world unchanged. One history in fifteen is a directed shape: one address piles up 31-37 unbonding records of one denom in different blocks (more than one page of the contract's listings), lets them mature and withdraws repeatedly.",
+        "Model-based stateful property testing of the real whale_lair wired to the real fee distributor and collector (so its claim-first / epoch-is-current preconditions are the real ones): generated histories of bond (with exact, mismatching, wrong-denom, extra — a second coin that is the fee denom, the other bonding denom or the unlisted denom — and missing funds; whitelisted, non-whitelisted and cw20 assets; the two bonding denoms and the unlisted one are prefixes of one another: amp / ampwhale / ampwhalex), unbond, two unbonds in one block, withdraw, time advances on and around the unbonding period (0, 1 ns, period-1, period, period+1, ...), epoch creation and claims by four users; reference model = bonded[user][denom] + multiset of unbonding records. After every step the contract balance per denom equals bonded + pending, TotalBonded equals the sum of users, Bonded/Unbonding/Withdrawable queries equal the model, a withdrawal pays exactly the matured records to the caller only, a non-whitelisted or cw20 asset is never accepted, a bond accepted with irregular funds is judged by the balance equation with the amount the contract itself credits, rejected steps leave the world unchanged. One history in fifteen is a directed shape: one address piles up 31-37 unbonding records of one denom in different blocks (more than one page of the contract's listings), lets them mature and withdraws repeatedly.",
         "Block time is owned by the harness. Withdraw's page limit of 30 records is modelled. cw-multi-test as the chain.",
         "stateful / model-based property testing with time-schedule generation",
         "DESIGN.md §4 C08",
@@ -55,13 +55,13 @@ CLAIMED = {
         "DESIGN.md §4 C09",
     ),
     "C20": (
-        "Schedule generation against a reference clock: the epoch manager (0..3 logging hook receivers, hooks added/removed mid-history) and the fee distributor are driven by generated block-time schedules (before genesis, exactly at, 1 ns before/after each boundary of either clock, several durations late with jitter) interleaved with creation attempts by arbitrary callers, repeated within a block; durations 1..3 days. Every attempt's acceptance must equal the reference clock's decision; after every step CurrentEpoch of both contracts equals the model, each registered hook logged exactly one call carrying the new epoch per accepted creation, and a rejected attempt leaves the world snapshot unchanged. The distributor's owner rewrites the epoch configuration (duration, genesis) mid-history; the reference clock follows the configuration read back from the contract.",
+        "Schedule generation against a reference clock: the epoch manager (0..3 logging hook receivers, hooks added/removed mid-history) and the fee distributor are driven by generated block-time schedules (before genesis, exactly at, 1 ns before/after each boundary of either clock, several durations late with jitter) interleaved with creation attempts by arbitrary callers, repeated within a block; durations 1..3 days. Every attempt's acceptance must equal the reference clock's decision; after every step CurrentEpoch of both contracts equals the model, each registered hook logged exactly one call carrying the new epoch per accepted creation, and a rejected attempt leaves the world snapshot unchanged. The distributor's owner rewrites the epoch configuration (duration, genesis) and the manager's admin the manager's duration mid-history; the reference clock follows the configuration read back from the contract. One case in five first offers the manager an instantiate message whose start epoch does not start at the configured genesis (skew +-1 ns .. +-20 days): refused on this tree; if taken, the first epoch must start at the genesis the contract reports.",
         "Block time owned by the harness. Hook receivers are harness contracts. The distributor runs with its real collector (empty factories).",
         "schedule generation (property-based) against a reference clock model",
         "DESIGN.md §4 C20",
     ),
     "C10": (
-        "Stateful property testing with injected faults on the full hub (3 pairs incl. a cw20 leg, 3 vaults, pool router with generated 1- and 2-hop routes, collector, distributor, lair): generated histories create fee states (zero, <= 1000, above) through real swaps and router flash loans, change the take rate over {inactive, 0, 1e-18, 0.1, ~1, random} with/without a DAO address, add/remove routes, disable swaps on a pair (simulation passes, execution fails), de-register or drain pairs, donate to the collector, call ForwardFees from non-distributors, and create epochs. Each NewEpoch is judged against a conservation oracle: failure => whole world snapshot unchanged; success => pending fees of registered pairs/vaults collected (sub-threshold entries kept), every non-distribution asset in the collector either untouched or fully swapped, router empty, DAO delta == floor(rate * forwarded balance) iff active and recorded in TakeRateHistory, distributor inflow == new epoch total - rolled-over remainder, collector's distribution-asset balance 0. A successful NewEpoch must not leave behind an asset that is above the aggregation threshold, listed by a registered pool or vault, routed and simulable (the swap step must then have been attempted, and a failed step undoes everything). NewEpoch is sent as a top-level message or from inside a router flash loan on one of the vaults (the vault may then owe exactly the enclosing loan's own protocol fee). One hub in eight carries eleven more registered pairs and eleven more registered vaults whose asset names sort first, so that the hub has more children than one default page of the factories' listings.",
+        "Stateful property testing with injected faults on the full hub (3 pairs incl. a cw20 leg, 3 vaults, pool router with generated 1- and 2-hop routes, collector, distributor, lair): generated histories create fee states (zero, <= 1000, above) in pairs through real swaps and in vaults through router flash loans sized so that the vault's protocol fee is 1 / 999 / 1000 / 1001 / a few hundred base units (or a fraction of the vault), change the take rate over {inactive, 0, 1e-18, 0.1, ~1, random} with/without a DAO address, add/remove routes, disable swaps on a pair (simulation passes, execution fails), de-register or drain pairs, donate to the collector, call ForwardFees from non-distributors, and create epochs. Each NewEpoch is judged against a conservation oracle: failure => whole world snapshot unchanged; success => pending fees of registered pairs collected (sub-threshold entries may stay) and every vault's pending fee 0, every non-distribution asset in the collector either untouched or fully swapped, router empty, DAO delta == floor(rate * forwarded balance) iff active and recorded in TakeRateHistory, distributor inflow == new epoch total - rolled-over remainder, collector's distribution-asset balance 0. A successful NewEpoch must not leave behind an asset that is above the aggregation threshold, listed by a registered pool or vault, routed and simulable (the swap step must then have been attempted, and a failed step undoes everything). NewEpoch is sent as a top-level message or from inside a router flash loan on one of the vaults (the vault may then owe exactly the enclosing loan's own protocol fee). One hub in eight carries eleven more registered pairs and eleven more registered vaults whose asset names sort first, so that the hub has more children than one default page of the factories' listings.",
         "Protocol fees charged by the aggregation's own swaps are read from swap events (claims validated by C07). Trios are not collected by ForwardFees and are not asserted. cw-multi-test as the chain.",
         "stateful property testing with fault injection and a conservation oracle",
         "DESIGN.md §4 C10",
